@@ -412,15 +412,23 @@ def run(ctx, idx):
     # ------------------------------------------------------------------ d
     table_attr = coverage_table_attr(idx)
     ok = False
+
+    def _table_values(f, it):
+        """`self.<table>.values()`, possibly under a name bound once, possibly copied with list() / tuple() (order kept)"""
+        it = K.expand(f, it)
+        while isinstance(it, ast.Call) and isinstance(it.func, ast.Name) and it.func.id in ("list", "tuple") and len(it.args) == 1 and not it.keywords:
+            it = K.expand(f, it.args[0])
+        return isinstance(it, ast.Call) and isinstance(it.func, ast.Attribute) and it.func.attr == "values" and isinstance(it.func.value, ast.Attribute) and it.func.value.attr == table_attr
+
     for f in funcs:
         for j in [n for n in own_nodes(f.node) if isinstance(n, ast.Call) and isinstance(n.func, ast.Attribute) and n.func.attr == "join" and n.args and isinstance(n.args[0], (ast.GeneratorExp, ast.ListComp))]:
             g = j.args[0].generators[0]
             it = g.iter
-            if isinstance(it, ast.Call) and isinstance(it.func, ast.Attribute) and it.func.attr == "values" and isinstance(it.func.value, ast.Attribute) and it.func.value.attr == table_attr and not g.ifs and len(j.args[0].generators) == 1:
+            if _table_values(f, it) and not g.ifs and len(j.args[0].generators) == 1:
                 ok = True
         for lp in [n for n in own_nodes(f.node) if isinstance(n, ast.For)]:
             it = lp.iter
-            if isinstance(it, ast.Call) and isinstance(it.func, ast.Attribute) and it.func.attr == "values" and isinstance(it.func.value, ast.Attribute) and it.func.value.attr == table_attr:
+            if _table_values(f, it):
                 # explicit loop: every iteration must emit (no continue / conditional skip at the top level of the body)
                 if not any(isinstance(x, (ast.Continue, ast.Break)) for x in ast.walk(lp)) and not any(isinstance(st, ast.If) for st in lp.body):
                     ok = True
